@@ -14,7 +14,7 @@ TECHNIQUE = "exhaustive enumeration of operand-form sequences (grammar lines and
 RULE = ("(a) grammar lines: EVERY operand sequence of length 0..3 over a reduced 16-operand menu (immediates, registers of "
         "every width, the five memory forms, negative/zero/positive displacements), and EVERY operand of the full menu (all "
         "68 general-purpose register names; k(a,b,c), (a,b,c), k(,b,c), k(a), (a) over all 16 base and index registers on "
-        "the diagonal and a 4x4 product, scales 1/2/4/8, 5 displacements) in first and in second position, direct targets "
+        "the diagonal and a 4x4 product, scales 1/2/4/8, 8 displacements incl. 9-, 12- and 16-digit ones), operand fields longer than 40 characters, a 1500-character comment, listings of 50001 / 70001 instruction lines (> 2 MiB of text) in first and in second position, direct targets "
         "with <sym+off> annotation, lines with # comments; (b) real `as` + `objdump -d -M att` round trips of lea/mov/add "
         "instructions over all 16x15 base/index pairs x 4 scales x 4 displacements for elf64 (thorough: also elf32 forms "
         "and the byte windows of C08). Oracle: operand count, order and text equal the normal form computed by an "
@@ -32,7 +32,7 @@ R32 = ["eax", "ebx", "ecx", "edx", "esi", "edi", "ebp", "esp"] + [f"r{i}d" for i
 R16 = ["ax", "bx", "cx", "dx", "si", "di", "bp", "sp"] + [f"r{i}w" for i in range(8, 16)]
 R8 = ["al", "bl", "cl", "dl", "sil", "dil", "bpl", "spl"] + [f"r{i}b" for i in range(8, 16)] + ["ah", "bh", "ch", "dh"]
 SCALES = ["1", "2", "4", "8"]
-DISPS = ["0x8", "-0x8", "0x0", "0x7fffffff", "-0x80"]
+DISPS = ["0x8", "-0x8", "0x0", "0x7fffffff", "-0x80", "0x100000000", "0xfffffffffffffff8", "-0x123456789ab"]
 
 REDUCED = ["$0x1", "$0x10", "%rax", "%r8d", "%al", "%dh", "0x8(%rax,%rbx,4)", "-0x8(%rbp,%rcx,1)", "(%rax,%rbx,8)",
            "0x0(,%rcx,4)", "0x10(%rsp)", "-0x8(%rbp)", "(%rdi)", "0x0(%rax,%rax,1)", "%r15", "$0x0"]
@@ -46,7 +46,7 @@ def full_menu():
     for a, b in pairs:
         for c in SCALES:
             m.append(f"(%{a},%{b},{c})")
-            for k in DISPS[:3]:
+            for k in DISPS[:3] + (DISPS[5:] if a == b else []):
                 m.append(f"{k}(%{a},%{b},{c})")
     for b in R64:
         for c in SCALES:
@@ -78,6 +78,10 @@ def grammar_lines():
         yield line("mov", [o, "%rdx"])
         yield line("mov", ["%rdx", o])
         yield line("imul", ["$0x10", o, "%rdx"])
+    # long operand fields (> 40 characters) and many long operands
+    yield line("movq", ["$0xffffffffffffffff", "-0x12345678(%r10,%r11,8)"])
+    yield line("vfmaddps", ["0x12345678(%r12,%r13,8)", "%xmm10", "%xmm11", "%xmm12"])
+    yield line("movabs", ["$0x1122334455667788", "%r10"], comment="x" * 1500)
     for t in ("401030", "0", "7fffffffffff", "ffffffffffffffff", "10"):
         yield line("call", [t], annot="f+0x10")
         yield line("jmp", [t], annot="main")
@@ -144,8 +148,24 @@ def run_roundtrip(shard, tier, h, res, known, clauses):
         res.samples.append({"roundtrip_objdump_lines": [l for l in text.split("\n") if "\t" in l][5:8]})
 
 
+def run_long(shard, tier, h, res, known):
+    """a listing of n instruction lines (> 2 MiB of text) cycling through the operand forms; every operand compared"""
+    n = shard["n_lines"]
+    forms = [("mov", ["%rsp", "%rbp"]), ("add", ["0x7f98(,%r15,4)", "%r10"]), ("lea", ["0x8(%rax,%rbx,4)", "%rcx"]), ("mov", ["$0x10", "-0x8(%rbp)"]),
+             ("call", ["401030"]), ("ret", []), ("mov", ["(%rdi)", "%eax"]), ("imul", ["$0x10", "(%rax,%rbx,8)", "%rdx"])]
+    lines = ["", "x:     file format elf64-x86-64", "", "", "Disassembly of section .text:", "", "0000000000400000 <f>:"]
+    lines += [fmt_line(f"{0x400000 + 7 * i:x}", *forms[i % len(forms)]) for i in range(n)]
+    text = "\n".join(lines) + "\n"
+    problems, cnt = ob.analyse_text(h, h.mop(ob._TRIVIAL_RULE), text, CLAUSES)
+    res.evaluations += n
+    res.nontrivial += cnt["simple_shape"]
+    for clause, line, exp, obs in problems[:5]:
+        res.fail({"clause": clause, "family": "long", "n_lines": n, "line": line, "expected": str(exp)[:200], "observed": str(obs)[:200], "size": n}, known)
+
+
 def shards(tier):
-    sh = [{"kind": "grammar", "lo": i, "n": 16} for i in range(16)]
+    sh = [{"kind": "long", "n_lines": n} for n in ([50001, 70001] if tier == "quick" else [50001, 70001, 150001])]
+    sh += [{"kind": "grammar", "lo": i, "n": 16} for i in range(16)]
     sh += [{"kind": "rt", "cls": 64, "part": i, "nparts": 8} for i in range(8)]
     sh += [{"kind": "rt", "cls": 32, "part": i, "nparts": 2} for i in range(2)]
     sh += [{"kind": "exotic"}]
@@ -155,7 +175,9 @@ def shards(tier):
 
 
 def run_shard(shard, tier, h, res, known):
-    if shard["kind"] == "grammar":
+    if shard["kind"] == "long":
+        run_long(shard, tier, h, res, known)
+    elif shard["kind"] == "grammar":
         run_grammar(shard, tier, h, res, known, CLAUSES)
     elif shard["kind"] == "rt":
         run_roundtrip(shard, tier, h, res, known, CLAUSES)
@@ -181,4 +203,9 @@ def controls(h):
 
 
 def replay(case, h):
+    if case.get("family") == "long":
+        r = type("R", (), {"evaluations": 0, "nontrivial": 0, "fails": []})()
+        r.fail = lambda c, k: r.fails.append(c)
+        run_long({"n_lines": case["n_lines"]}, "quick", h, r, set())
+        return bool(r.fails), str(r.fails)[:300]
     return ob.replay_line(case, h, CLAUSES)
